@@ -2,6 +2,7 @@ package check
 
 import (
 	"fmt"
+	"go/constant"
 	"go/token"
 	"go/types"
 	"strings"
@@ -396,15 +397,30 @@ func runTypeRel(c *Ctx, r *Reporter) {
 			if !ok {
 				continue
 			}
-			bo, ok := ifi.Cond.(*ssa.BinOp)
-			if !ok || bo.Op != token.EQL {
-				continue
-			}
 			g := ""
-			for _, side := range []ssa.Value{bo.X, bo.Y} {
-				if u, ok := side.(*ssa.UnOp); ok {
-					if gl, ok := u.X.(*ssa.Global); ok && wild[gl.Name()] {
-						g = gl.Name()
+			switch x := ifi.Cond.(type) {
+			case *ssa.BinOp:
+				if x.Op != token.EQL {
+					continue
+				}
+				for _, side := range []ssa.Value{x.X, x.Y} {
+					if u, ok := side.(*ssa.UnOp); ok {
+						if gl, ok := u.X.(*ssa.Global); ok && wild[gl.Name()] {
+							g = gl.Name()
+						}
+					}
+				}
+			case *ssa.Call:
+				// a predicate of the package that compares its argument with the wildcards (isEmptyComposite(t))
+				if f := x.Call.StaticCallee(); f != nil && f.Pkg == sf.Pkg && len(f.Blocks) > 0 {
+					for _, fb := range f.Blocks {
+						for _, ins := range fb.Instrs {
+							if u, ok := ins.(*ssa.UnOp); ok {
+								if gl, ok := u.X.(*ssa.Global); ok && wild[gl.Name()] && g == "" {
+									g = gl.Name() + " (in " + f.Name() + ")"
+								}
+							}
+						}
 					}
 				}
 			}
@@ -504,6 +520,44 @@ func runTypeRel(c *Ctx, r *Reporter) {
 							return true
 						}
 					}
+					// `flag || right.Fixed`: the merged value depends on the flag through the test that short-circuits it
+					if id := x.Block().Idom(); id != nil && len(id.Instrs) > 0 {
+						if ifi, ok := id.Instrs[len(id.Instrs)-1].(*ssa.If); ok {
+							return dependsOnFlag(ifi.Cond, depth+1)
+						}
+					}
+				}
+				return false
+			}
+			// the test of a short-circuit `flag || …` / `flag && …` is part of the flag's update, not a decision: one of its
+			// edges feeds a constant into a boolean phi
+			shortCircuit := func(ifi *ssa.If) bool {
+				c := ifi.Cond
+				for {
+					if u, ok := c.(*ssa.UnOp); ok && u.Op == token.NOT {
+						c = u.X
+						continue
+					}
+					break
+				}
+				if c != ssa.Value(h) {
+					return false
+				}
+				b := ifi.Block()
+				for _, s := range b.Succs {
+					for _, ins := range s.Instrs {
+						phi, ok := ins.(*ssa.Phi)
+						if !ok {
+							break
+						}
+						for j, pr := range s.Preds {
+							if pr == b && j < len(phi.Edges) {
+								if _, isConst := phi.Edges[j].(*ssa.Const); isConst {
+									return true
+								}
+							}
+						}
+					}
 				}
 				return false
 			}
@@ -513,7 +567,7 @@ func runTypeRel(c *Ctx, r *Reporter) {
 					continue
 				}
 				ifi, ok := b.Instrs[len(b.Instrs)-1].(*ssa.If)
-				if !ok || !dependsOnFlag(ifi.Cond, 0) {
+				if !ok || !dependsOnFlag(ifi.Cond, 0) || shortCircuit(ifi) {
 					continue
 				}
 				n++
@@ -532,9 +586,27 @@ func runTypeRel(c *Ctx, r *Reporter) {
 	// loop header again or returns something other than `any`) has passed the edge on which the two names were equal.
 	if fd := FindFunc(pkg, "combineTypes"); fd != nil {
 		sf := p.SSAFunc(fd.Obj)
-		type edge struct {
-			b   *ssa.BasicBlock
-			idx int
+		// the combination of two types may have been moved into a helper: the function that consults the wildcards is
+		// analysed; there a return of (nil|…, false) stands for "only any in common"
+		loadsWild := func(f *ssa.Function) bool {
+			for _, b := range f.Blocks {
+				for _, ins := range b.Instrs {
+					if u, ok := ins.(*ssa.UnOp); ok {
+						if gl, ok := u.X.(*ssa.Global); ok && wild[gl.Name()] {
+							return true
+						}
+					}
+				}
+			}
+			return false
+		}
+		if !loadsWild(sf) {
+			for _, h := range regionFns(sf, 2, map[string]bool{"Equals": true, "mergeFixed": true, "accepts": true, "matches": true, "infer": true}) {
+				if h != sf && loadsWild(h) {
+					sf = h
+					break
+				}
+			}
 		}
 		nameEqAt := map[*ssa.BasicBlock]int{} // block -> successor index on which the names are equal
 		for _, b := range sf.Blocks {
@@ -561,6 +633,10 @@ func runTypeRel(c *Ctx, r *Reporter) {
 				return false
 			}
 			ret, ok := b.Instrs[len(b.Instrs)-1].(*ssa.Return)
+			if ok && len(ret.Results) == 2 {
+				k, isConst := ret.Results[1].(*ssa.Const)
+				return isConst && k.Value != nil && k.Value.Kind() == constant.Bool && !constant.BoolVal(k.Value)
+			}
 			if !ok || len(ret.Results) != 1 {
 				return false
 			}
@@ -887,29 +963,15 @@ func runTypeRel(c *Ctx, r *Reporter) {
 				n++
 				// dominated by the edges on which the name is neither ARRAY nor MAP
 				notComposite := 0
-				for d := ret.Block(); d != nil; d = d.Idom() {
-					id := d.Idom()
-					if id == nil || len(id.Instrs) == 0 {
-						continue
-					}
-					ifi, ok := id.Instrs[len(id.Instrs)-1].(*ssa.If)
-					if !ok {
-						continue
-					}
-					bo, ok := ifi.Cond.(*ssa.BinOp)
+				for _, f := range impliedConds(ret.Block()) {
+					bo, ok := f.Cond.(*ssa.BinOp)
 					if !ok || !isNameLoad(bo.X) {
 						continue
 					}
 					if _, isConst := bo.Y.(*ssa.Const); !isConst {
 						continue
 					}
-					edge := 0
-					if bo.Op == token.EQL {
-						edge = 1
-					} else if bo.Op != token.NEQ {
-						continue
-					}
-					if edgeDominates(id, edge, ret.Block()) {
+					if (bo.Op == token.NEQ && f.Truth) || (bo.Op == token.EQL && !f.Truth) {
 						notComposite++
 					}
 				}
